@@ -34,6 +34,8 @@ type C16Plan struct {
 	Flusher bool `json:"flusher,omitempty"`
 	// PathErr: injected errors are *fs.PathError values wrapping the sentinel.
 	PathErr bool `json:"path_err,omitempty"`
+	// ErrTemp: "" | "temporary" | "timeout" (see WFault.Temp).
+	ErrTemp string `json:"err_temp,omitempty"`
 }
 
 type c16Prop struct{}
@@ -48,7 +50,7 @@ func (c16Prop) Count(tier string) int {
 	if tier == "thorough" {
 		return 150000
 	}
-	return 600
+	return 3000
 }
 
 func (c16Prop) Rule() string {
@@ -102,6 +104,9 @@ func (c16Prop) Generate(seed uint64, idx int, tier string) *Plan {
 		if r.P(3, 4) {
 			pl.Ops = append(pl.Ops, -1)
 		}
+	}
+	if r.P(1, 4) {
+		pl.ErrTemp = r.Pick([]string{"temporary", "timeout"})
 	}
 	return &Plan{Prop: "C16", Seed: seed, Idx: idx, Tier: tier, C16: pl}
 }
@@ -248,6 +253,9 @@ func (c16Prop) Execute(p *Plan, run *Run) any {
 		if pl.PathErr {
 			f.Flavour = "patherror"
 		}
+		if pl.ErrTemp != "" {
+			f.Temp = pl.ErrTemp
+		}
 		if f.Kind == "flusherr" {
 			// only code that chooses to flush its destination gets here
 			w := &DiskWriter{Fault: &f}
@@ -323,7 +331,7 @@ func (c16Prop) Execute(p *Plan, run *Run) any {
 		if kind == "encode" {
 			kind = "encode(size-triggered)"
 		}
-		run.Sig("%s|%s|%s|%s|%s|patherr:%v", pl.API, kind, role, variant, pl.Codec, pl.PathErr)
+		run.Sig("%s|%s|%s|%s|%s|patherr:%v%s", pl.API, kind, role, variant, pl.Codec, pl.PathErr, pl.ErrTemp)
 		for i := 0; i < ci; i++ {
 			if fc[i].Err != nil {
 				run.Infra(fmt.Sprintf("%s: call %d (%s) failed before the fault fired: %v", desc, i, fc[i].Kind, fc[i].Err))
